@@ -302,6 +302,9 @@ func c17lifecycle(env *core.Env, cs c17case, res *core.CaseResult) {
 	defer sh.CloseAll()
 	defer rh.CloseAll()
 	nh := 1 + r.Intn(3)
+	if cs.Subject == "kvplain" {
+		nh = 1 // a plain Store hands every handle its own snapshot (FileRecord contract): handles are not coherent with each other
+	}
 	var script []fsx.Step
 	do := func(st fsx.Step) (fsx.Result, fsx.Result) {
 		script = append(script, st)
@@ -313,6 +316,40 @@ func c17lifecycle(env *core.Env, cs c17case, res *core.CaseResult) {
 	unlinked := false
 	for i := 0; i < 4+r.Intn(8); i++ {
 		var st fsx.Step
+		if unlinked && cs.Seed%2 == 1 {
+			// variant: after the name is gone the old handles are only read, so that the history is not cut short by
+			// the known finding about writes (F20) and handle validity after Remove/Rename is compared with os.File
+			slot := r.Intn(nh)
+			switch r.Intn(4) {
+			case 0:
+				st = fsx.Step{K: "H.ReadAt", Slot: slot, N: 6, Off: int64(r.Intn(8))}
+			case 1:
+				st = fsx.Step{K: "H.Stat", Slot: slot}
+			case 2:
+				st = fsx.Step{K: "H.Seek", Slot: slot, Off: int64(r.Intn(6)), Whence: io.SeekStart}
+			default:
+				st = fsx.Step{K: "H.Read", Slot: slot, N: 5}
+			}
+			sr, rr := do(st)
+			res.Count("reads_after_unlink", 1)
+			if sr.Panic != "" {
+				res.Violate(fmt.Sprintf("C17|%s|lifecycle|%s|panic", cs.Subject, st.K), fmt.Sprintf("[%s] %s panicked: %s", cs.Subject, st, sr.Panic), map[string]any{"script": fsx.HistoryString(script)})
+				return
+			}
+			eofish := func(e string) bool { return e == "ok" || e == "EOF" }
+			same := eofish(sr.Err) == eofish(rr.Err) // both deliver (possibly with EOF) or both fail
+			if st.K == "H.Stat" {
+				same = sr.OK() == rr.OK() // names of unlinked files differ by OS; only validity is compared
+			} else if same && eofish(rr.Err) && (sr.N != rr.N || sr.Data != rr.Data) {
+				same = false
+			}
+			if !same {
+				res.Violate(fmt.Sprintf("C17|%s|lifecycle|%s|after-unlink|handle-differs-from-os", subjKind17(cs.Subject), st.K),
+					fmt.Sprintf("[%s] %s on a handle opened before the name was removed/renamed: %s; os.File: %s", cs.Subject, st, sr, rr), map[string]any{"subject": cs.Subject, "script": fsx.HistoryString(script)})
+				return
+			}
+			continue
+		}
 		switch k := r.Intn(10); {
 		case k < 2:
 			st = fsx.Step{K: "Remove", P: "f"}
